@@ -1286,6 +1286,67 @@ def create_failure_stream(chk, R, wd):
     return n
 
 
+
+# ---- stream 11: the activity log of a second generation (restart) through the real Supervisor.main()
+
+SECOND_GEN = r"""
+import os, sys
+from supervisor.options import ServerOptions
+from supervisor.supervisord import Supervisor
+conf, log, mb, bk = sys.argv[1], sys.argv[2], sys.argv[3], sys.argv[4]
+held = [os.open(os.devnull, os.O_RDONLY) for _ in range(6)]      # descriptors 3.. are taken: the log gets one >= 5
+o = ServerOptions()
+o.realize(args=['-c', conf, '-y', mb, '-z', bk])
+o.first = False            # a restart: main() runs again in the same process
+o.minfds = 64
+o.nocleanup = True
+s = Supervisor(o)
+s.run = lambda: None       # only the set-up part of main() is of interest
+s.main()
+o.logger.info('MARK-second-generation')
+o.logger.info('x' * 40)
+for h in o.logger.handlers:
+    h.flush()
+"""
+
+
+def second_generation_stream(chk, R, wd):
+    """After a restart (options.first false) main() must leave the activity logger usable: what is logged
+    afterwards is in the file at the configured path (cleanup_fds must not close the new log's descriptor)."""
+    import subprocess
+    n = 0
+    d = os.path.join(wd, 'gen2')
+    os.makedirs(d, exist_ok=True)
+    script = os.path.join(d, 'gen2.py')
+    with open(script, 'w') as f:
+        f.write(SECOND_GEN)
+    for (mb, bk) in ((0, 0), (60, 2), (1000, 0)):
+        n += 1
+        log = os.path.join(d, 'supervisord-%d.log' % mb)
+        conf = os.path.join(d, 's.conf')
+        with open(conf, 'w') as f:
+            f.write('[supervisord]\nlogfile=%s\npidfile=%s\nchildlogdir=%s\n' % (log, os.path.join(d, 'x.pid'), d))
+        p = subprocess.run([vlib.PY, script, conf, log, str(mb), str(bk)], env=vlib.impl_env(), cwd=d,
+                           stdout=subprocess.PIPE, stderr=subprocess.PIPE, timeout=60)
+        cat = b''
+        for name in sorted(os.listdir(d), reverse=True):
+            if name.startswith(os.path.basename(log)):
+                with open(os.path.join(d, name), 'rb') as f:
+                    cat += f.read()
+                os.remove(os.path.join(d, name))
+        chk.dist('second_generation')
+        if b'MARK-second-generation' not in cat:
+            chk.violation({'kind': 'C19 fails on the implementation (activity log after a restart)',
+                           'what': 'after Supervisor.main() of a second generation (options.first false, descriptors 3-8 in use) what '
+                                   'is logged is not in the activity log at its configured path (%d bytes there; the process '
+                                   'ended with status %r)' % (len(cat), p.returncode),
+                           'maxbytes': mb, 'backups': bk, 'stderr': p.stderr.decode('utf-8', 'replace')[-800:]})
+        elif p.returncode != 0:
+            chk.violation({'kind': 'the second-generation start-up failed', 'stderr': p.stderr.decode('utf-8', 'replace')[-1500:]},
+                          nofail=True)
+    return n
+
+
 # ------------------------------------------------------------------- the run
 
 WITNESS = dict(n=2, mb=10, bk=2, sizes=[4] * 12)      # DESIGN: alternating 4-byte writes
@@ -1569,6 +1630,7 @@ def _run(chk, wd, proved):
     n_outage = outage_stream(chk, R, wd)
     n_outage += blocked_stream(chk, R, wd)
     n_outage += create_failure_stream(chk, R, wd)
+    n_outage += second_generation_stream(chk, R, wd)
     chk.note('t_config_activity_outage_done=%.1f' % (__import__('time').time() - chk.t0))
     if shared_hits:
         chk.known_finding('C19-shared', 'more than one rotating handler on one path (stdout and stderr, or two logs, configured '
